@@ -25,7 +25,8 @@ From IastRw Require Import Sem P_Sem.
     variables may change after each interaction -- every set of instrumented method names, and every
     source expression built from string literals, variables, property reads [o.k], [+], calls, method calls with no or one
     argument -- plain and optional ([o?.m()], [o?.m(a)]: a chain of one optional link, rewritten into a null guard) --,
-    compound assignments [x += e] and [o.k += e], template literals with one or two substitutions, and parentheses:
+    compound assignments [x += e], [o.k += e] and [o[k] += e] (a computed key: the object is read before the key is
+    evaluated, finding 17m), template literals with one or two substitutions, and parentheses:
     the rewritten expression yields the same outcome (value or exception) and the same history of
     interactions as the source, from any counter value and any temporary store, and it writes only
     temporaries in the range it allocated.  ([rw] is the function the check ties to the code: SemTie.v.)
@@ -86,8 +87,34 @@ Example C01_core_example :
       (Hoist2 1 (Tmp 0) 2 (Get (Tmp 1) "trim") (Hook (CallT0 (Tmp 2) (Tmp 1)) [Tmp 2; Tmp 1])) /\
   (* a chain on a literal receiver is left alone, its argument is still rewritten *)
   fst (rw all all none true (OptMCall1 (Lit (VStr "l")) "concat" (Add (Var "x") (Var "y"))) 0) =
-    OptMCall1 (Lit (VStr "l")) "concat" (Hook (Add (Var "x") (Var "y")) [Var "x"; Var "y"]).
+    OptMCall1 (Lit (VStr "l")) "concat" (Hook (Add (Var "x") (Var "y")) [Var "x"; Var "y"]) /\
+  (* a[f(x)] += s : the key is captured, and the identifier object before it; a[k] += s : both stay *)
+  fst (rw all all none true (AddAsgC (Var "a") (CallE (Var "f") (Var "x")) (Var "s")) 0) =
+    Hoist2 0 (Var "a") 1 (CallE (Var "f") (Var "x"))
+      (AsgC (Tmp 0) (Tmp 1) (Hoist1 2 (GetC (Tmp 0) (Tmp 1)) (Hook (Add (Tmp 2) (Var "s")) [Tmp 2; Var "s"]))) /\
+  fst (rw all all none true (AddAsgC (Var "a") (Var "k") (Var "s")) 0) =
+    AsgC (Var "a") (Var "k") (Hoist1 0 (GetC (Var "a") (Var "k")) (Hook (Add (Tmp 0) (Var "s")) [Tmp 0; Var "s"])).
 Proof. repeat split; reflexivity. Qed.
+
+(** What the repair of finding 17m is about, in the core semantics: with the object left in place while the key is
+    captured -- [(t0 = f(x), a[t0] = (t1 = a[t0], hook(t1 + s, t1, s)))], what the code did before 12287b8 -- a world in which
+    calling [f] changes the variable [a] tells the rewritten expression from the source: the source reads and writes the
+    object [a] held BEFORE the call (object 1), the old rewriting the one it holds after (object 2). *)
+Example C01_object_after_key_refuted :
+  let respond := fun (_ : hist) (_ : event) => RRet (VStr "r") in
+  let ustore := fun (h : hist) (x : string) =>
+                  if String.eqb x "a" then match h with [] => VObj 1 | _ => VObj 2 end else VStr x in
+  let e := AddAsgC (Var "a") (CallE (Var "f") (Var "x")) (Var "s") in
+  let old := Hoist1 0 (CallE (Var "f") (Var "x"))
+               (AsgC (Var "a") (Tmp 0) (Hoist1 1 (GetC (Var "a") (Tmp 0)) (Hook (Add (Tmp 1) (Var "s")) [Tmp 1; Var "s"]))) in
+  let t0 : tenv := fun _ => VUndef in
+  let touched := fun ev => match ev with EvGetV o _ => Some o | EvSetV o _ _ => Some o | _ => None end in
+  src e /\
+  map touched (fst (snd (eval respond ustore e ([], t0)))) = [None; Some (VObj 1); Some (VObj 1)] /\
+  map touched (fst (snd (eval respond ustore old ([], t0)))) = [None; Some (VObj 2); Some (VObj 2)] /\
+  map touched (fst (snd (eval respond ustore (fst (rw (fun _ => false) (fun _ => false) (fun _ => false) true e 0)) ([], t0)))) =
+    [None; Some (VObj 1); Some (VObj 1)].
+Proof. cbv zeta. repeat split; vm_compute; try reflexivity; auto. Qed.
 
 (** ** The optional call of a rewritten chain keeps its receiver (finding 17d, repaired in 50cf4f0).
     For a callee that is a member access -- plain [o.m?.(..)], optional [o?.m?.(..)] or parenthesised [(o.m)?.(..)] --
